@@ -33,7 +33,9 @@ Dims == [
   flag  |-> {TRUE, FALSE} ]               \* op.Config.RequestObjectSupported
 
 Bases == { [iss |-> "A", cid |-> "A", aud |-> "issuer", rtype |-> "code", by |-> "a1", kid |-> "ka1", alg |-> "RS256", edit |-> "none", flag |-> TRUE],
-           [iss |-> "A", cid |-> "A", aud |-> "issuer", rtype |-> "absent", by |-> "a2", kid |-> "ka2", alg |-> "ES256", edit |-> "none", flag |-> TRUE] }
+           [iss |-> "A", cid |-> "A", aud |-> "issuer", rtype |-> "absent", by |-> "a2", kid |-> "ka2", alg |-> "ES256", edit |-> "none", flag |-> TRUE],
+           \* an object that is perfectly consistent - for ANOTHER client (B) than the one making the request (A)
+           [iss |-> "B", cid |-> "B", aud |-> "issuer", rtype |-> "code", by |-> "b1", kid |-> "kb1", alg |-> "ES256", edit |-> "none", flag |-> TRUE] }
 Dev1(S) == S \cup UNION {UNION {{[t EXCEPT ![f] = v] : v \in Dims[f]} : f \in DOMAIN Dims} : t \in S}
 
 Groups == {"all"}
@@ -60,6 +62,8 @@ RulesRouter(r, c, o) ==
   { <<"C14.reqobj.override:" \o r, (o.class = "login" /\ o.src # "query") => MayOverride(c)>>,
     <<"C14.reqobj.whole:" \o r,    (o.class = "login") => o.src \in {"query", "obj"}>>,     \* never a mixture of both sources
     <<"C14.reqobj.complete:" \o r, MustOverride(c) => (o.class = "login" /\ o.src = "obj")>>,
+    \* C02 names the request-object verifier too: believed only when signed by a key held for the requesting client
+    <<"C02.reqobj.key:" \o r, (o.class = "login" /\ o.src # "query") => Signed(c)>>,
     <<"C09.nopanic:" \o r, o.class # "panic">> }
 Rules(c, o) == RulesRouter("P", c, o.P) \cup RulesRouter("L", c, o.L)
 Check(c, o) == {r[1] : r \in {x \in Rules(c, o) : ~x[2]}}
